@@ -1,8 +1,10 @@
 SPECIFICATION Spec
 CONSTANTS
   N = 3
+  MaxFaults = 1
   BugCheckBeforeCreateRef = FALSE
   BugDeleteWithoutList = TRUE
+  BugDropCloseError = FALSE
 INVARIANT Safe
 INVARIANT AttachedHaveRef
 INVARIANT NoLeak
